@@ -39,6 +39,53 @@ Theorem C19_unexpired_after_full : forall ca c v s now,
 Proof. exact full_unexpired. Qed.
 Print Assumptions C19_unexpired_after_full.
 
+(* ---- histories of any length: every later connection resumes ---- *)
+(* c1 completes; every connection of `rest` has c1's parrot, name, server, verify mode (follows), its clock in a
+   window [B - 7 days, B] in which the session stored by c1 is unexpired, no HelloRetryRequest unless HelloGolang.
+   Then each of them resumes and offers exactly the session its predecessor left under the cache key (chain_ok):
+   the Go server issues a new ticket on every resumed connection (TLS 1.2 doResumeHandshake always; TLS 1.3 after
+   each handshake), the client stores it, and the invariant (good session, unexpired until B) is re-established. *)
+Theorem C19_resume_all : forall ca c1 rest v B,
+  completed (snd (step ca c1)) = true ->
+  negotiate (c_srv c1) (c_spec c1) = Some v ->
+  can_resume (c_spec c1) (c_srv c1) v ->
+  mem (c_suite c1) (sp_suites (c_spec c1)) = true ->
+  (forall s, lookup (c_name c1) (fst (step ca c1)) = Some s -> unexpired s B) ->
+  Forall (follows c1 v B) rest ->
+  chain_ok (c_name c1) (fst (step ca c1)) rest.
+Proof. exact resume_all. Qed.
+Print Assumptions C19_resume_all.
+
+(* the same with the window made explicit when c1 is a full handshake: B within 7 days of c1 and the certificate's NotAfter *)
+Theorem C19_resume_all_after_full : forall ca c1 rest v B,
+  completed (snd (step ca c1)) = true -> resumed (snd (step ca c1)) = false ->
+  negotiate (c_srv c1) (c_spec c1) = Some v ->
+  can_resume (c_spec c1) (c_srv c1) v ->
+  mem (c_suite c1) (sp_suites (c_spec c1)) = true ->
+  B <= c_now c1 + LIFETIME -> B <= sv_notafter (c_srv c1) ->
+  Forall (follows c1 v B) rest ->
+  chain_ok (c_name c1) (fst (step ca c1)) rest.
+Proof.
+  intros ca c1 rest v B Hc Hr Ng Cr Ms T1 T2 F. apply (resume_all ca c1 rest v B Hc Ng Cr Ms); [|exact F].
+  intros s L. apply (full_unexpired ca c1 v s B Hc Hr Ng); try assumption.
+  - intros ->. destruct Cr as [[E _]|[_ [_ [M _]]]]; [discriminate|exact M].
+  - intros N. destruct Cr as [[_ T]|[E _]]; [exact T|congruence].
+Qed.
+Print Assumptions C19_resume_all_after_full.
+
+(* ---- arbitrary interleavings: a connection depends only on the entry under its own cache key ---- *)
+Theorem C19_step_local : forall ca1 ca2 c, lookup (c_name c) ca1 = lookup (c_name c) ca2 ->
+  snd (step ca1 c) = snd (step ca2 c) /\ lookup (c_name c) (fst (step ca1 c)) = lookup (c_name c) (fst (step ca2 c)).
+Proof. exact step_local. Qed.
+Print Assumptions C19_step_local.
+
+(* in any history of connections to different names / with different parrots sharing the cache, the connections with
+   cache key k observe exactly what they would observe if the other connections had not happened *)
+Theorem C19_interleave_local : forall h ca k,
+  run_key k ca h = run ca (filter (fun c => c_name c =? k) h).
+Proof. intros h ca k. apply interleave_local. reflexivity. Qed.
+Print Assumptions C19_interleave_local.
+
 (* ---- including when the server answers with a HelloRetryRequest: full statement, refuted ---- *)
 Definition C19_resume_hrr_full : Prop := resume_next_stmt (fun _ => True).
 
@@ -181,6 +228,29 @@ Proof. vm_compute. reflexivity. Qed.
 Example C19_ex_no_name :
   let c n t := mkConn golang n 100 srv13 t true true 4865 120 in
   map resumed (run [] [c 0 1000; c 4 2000; c 0 3000; c 4 4000]) = [false; false; true; true].
+Proof. vm_compute. reflexivity. Qed.
+(* five connections: the chain resumes throughout (TLS 1.2 keeps the server-side creation time, TLS 1.3 refreshes it) *)
+Example C19_ex_chain12 : map resumed (run [] (map (fun t => at_ chrome srv12 1 t 49195) [1000; 2000; 90000; 400000; 605000; 606000])) = [false; true; true; true; true; false].
+Proof. vm_compute. reflexivity. Qed.
+Example C19_ex_chain13 : map resumed (run [] (map (fun t => at_ chrome_psk srv13 1 t 4865) [1000; 2000; 90000; 400000; 605000; 1200000])) = [false; true; true; true; true; true].
+Proof. vm_compute. reflexivity. Qed.
+Example C19_ex_follows :
+  let c1 := at_ chrome_psk srv13 1 1000 4865 in
+  Forall (follows c1 V13 605800) [at_ chrome_psk srv13 1 2000 4865; at_ chrome_psk srv13 1 90000 4865; at_ chrome_psk srv13 1 605800 4865].
+Proof.
+  cbv zeta.
+  assert (F : forall t, (t <=? 605800) = true -> (605800 <=? t + LIFETIME) = true ->
+              follows (at_ chrome_psk srv13 1 1000 4865) V13 605800 (at_ chrome_psk srv13 1 t 4865)).
+  { intros t H1 H2. split.
+    { split; [reflexivity|]. split; [reflexivity|]. split; [reflexivity|]. split; reflexivity. }
+    split. { intros _. split; [reflexivity|]. split; [vm_compute; apply le_n|]. intros _. reflexivity. }
+    split. { intros _. right. reflexivity. }
+    split; apply N.leb_le; assumption. }
+  repeat constructor; apply F; reflexivity.
+Qed.
+Example C19_ex_interleave :
+  let a t := at_ chrome srv12 1 t 49195 in let b t := at_ golang srv13 2 t 4865 in
+  map resumed (run_key 1 [] [a 1000; b 1500; a 2000; b 2500; b 3000; a 3500]) = [false; true; true].
 Proof. vm_compute. reflexivity. Qed.
 Example C19_ex_binder : psk_ext_len [mkIdent [1; 2; 3] 5] [placeholder 4866] = 4 + 2 + (2 + 3 + 4) + 2 + 49.
 Proof. vm_compute. reflexivity. Qed.
